@@ -46,3 +46,11 @@ Theorem C15_validate_table : forall ex isd ne ow,
      (ex = true /\ isd = true /\ ne = true /\ ow = false)) /\
   (validate_out ex isd ne ow = VdErrNotDir <-> (ex = true /\ isd = false)).
 Proof. exact validate_total. Qed.
+
+(* the tree, when requested, is saved exactly once: after every call that changes the estimator and
+   right before the results are read out, so the saved tree is the one the API sequence produces;
+   when not requested no save call is made *)
+Theorem C15_tree_saved_last : forall o n,
+  exists pre, Forall (fun a => is_out a = false) pre /\
+    run_plan o n = pre ++ (if ro_save_tree o then [ASaveTree; ASave] else [ASave]).
+Proof. exact run_plan_tree_last. Qed.
